@@ -70,6 +70,50 @@ type stillKind struct {
 	Alpha    int
 }
 
+// c15Shaped: metadata blobs with the shapes real producers write (a reader that "normalises" one of them
+// -- strips an identifier, a BOM, trailing NULs, trusts an embedded size field -- no longer returns the
+// blob byte for byte), blobs that look like container structure, and degenerate ones.
+func c15Shaped() []blob {
+	tiffII := []byte("II*\x00\x08\x00\x00\x00\x01\x00\x12\x01\x03\x00\x01\x00\x00\x00\x06\x00\x00\x00\x00\x00\x00\x00")
+	tiffMM := []byte("MM\x00*\x00\x00\x00\x08\x00\x01\x01\x12\x00\x03\x00\x00\x00\x01\x00\x06\x00\x00\x00\x00\x00\x00")
+	icc := func(declared int, total int) []byte {
+		b := make([]byte, total)
+		for i := range b {
+			b[i] = byte(i*7 + 1)
+		}
+		binary.BigEndian.PutUint32(b[0:], uint32(declared))
+		copy(b[4:], "lcms")
+		copy(b[12:], "mntrRGB XYZ ")
+		copy(b[36:], "acsp")
+		return b
+	}
+	xmpBody := `<x:xmpmeta xmlns:x="adobe:ns:meta/"><rdf:RDF xmlns:rdf="http://www.w3.org/1999/02/22-rdf-syntax-ns#"/></x:xmpmeta>`
+	return []blob{
+		{"exif-app1-II", append([]byte("Exif\x00\x00"), tiffII...)},
+		{"exif-app1-MM", append([]byte("Exif\x00\x00"), tiffMM...)},
+		{"exif-tiff-II", tiffII},
+		{"exif-tiff-MM", tiffMM},
+		{"exif-app1-twice", append([]byte("Exif\x00\x00Exif\x00\x00"), tiffII...)},
+		{"exif-id-only+1", []byte("Exif\x00\x00\x2a")},
+		{"xmp-xpacket", []byte("<?xpacket begin=\"\xef\xbb\xbf\" id=\"W5M0MpCehiHzreSzNTczkc9d\"?>" + xmpBody + "<?xpacket end=\"w\"?>")},
+		{"xmp-xmpmeta", []byte(xmpBody)},
+		{"xmp-bom-ws", []byte("\xef\xbb\xbf \n\t" + xmpBody)},
+		{"xmp-trailing-nul", []byte(xmpBody + "\x00\x00\x00")},
+		{"xmp-app1-id", []byte("http://ns.adobe.com/xap/1.0/\x00" + xmpBody)},
+		{"icc-128-size-eq", icc(128, 128)},
+		{"icc-size-larger", icc(4096, 160)},
+		{"icc-size-smaller", icc(128, 161)},
+		{"fourcc-vp8", []byte("VP8 \x04\x00\x00\x00abcd")},
+		{"fourcc-alph", []byte("ALPH\x01\x00\x00\x00\x00")},
+		{"fourcc-exif", []byte("EXIF\x02\x00\x00\x00zz")},
+		{"fourcc-anmf", []byte("ANMF\x10\x00\x00\x00\x00\x00\x00\x00\x00\x00\x00\x00\x00\x00\x00\x00\x00\x00\x00\x00")},
+		{"zeros-1", []byte{0}},
+		{"zeros-7", make([]byte, 7)},
+		{"zeros-128", make([]byte, 128)},
+		{"ff-5", []byte{0xff, 0xff, 0xff, 0xff, 0xff}},
+	}
+}
+
 // c15Still evaluates one (image, options, metadata triple).
 func c15Still(c *Ctx, k stillKind, img image.Image, base *webp.EncoderOptions, icc, exif, xmp blob, ref *stillRef) {
 	c.D.Evaluations++
@@ -132,6 +176,11 @@ func c15Still(c *Ctx, k stillKind, img image.Image, base *webp.EncoderOptions, i
 		}
 		if q.fl != (len(q.b) > 0) {
 			c.Violate("vp8x-flag-not-exact", q.n+" flag does not announce exactly the blob present", replay)
+		}
+	}
+	for _, ck := range p.Chunks { // container parser accessor: chunks collected before the image chunk (ICCP)
+		if ck.FourCC == mux.FourCCICCP && !bytes.Equal(ck.Data, icc.Data) {
+			c.Violate("metadata-not-byte-exact", "ICCP chunk held by the container parser differs from the blob given to Encode", replay)
 		}
 	}
 	if p.Format == 3 && (p.HasICCP != (len(icc.Data) > 0) || p.HasEXIF != (len(exif.Data) > 0) || p.HasXMP != (len(xmp.Data) > 0)) {
@@ -223,7 +272,19 @@ func c15Anim(c *Ctx, rng *Rand, lossless bool, nframes int, w, h int, icc, exif,
 	if _, derr3 := webp.Decode(bytes.NewReader(data)); derr3 != nil {
 		c.Violate("written-file-rejected", "Decode rejects the animation encoder's output ("+derr3.Error()+")", replay)
 	}
-	if pl, pp := safeParse(data); pp.ErrClass != 0 {
+	pl, pp := safeParse(data)
+	for _, ck := range pp.Chunks { // container parser accessor: metadata chunks of an animated file
+		for _, q := range []struct {
+			id uint32
+			b  []byte
+			n  string
+		}{{mux.FourCCICCP, icc.Data, "ICCP"}, {mux.FourCCEXIF, exif.Data, "EXIF"}, {mux.FourCCXMP, xmp.Data, "XMP"}} {
+			if ck.FourCC == q.id && !bytes.Equal(ck.Data, q.b) {
+				c.Violate("metadata-not-byte-exact", q.n+" chunk held by the container parser differs from the blob set on the animation encoder", replay)
+			}
+		}
+	}
+	if pp.ErrClass != 0 {
 		c.Violate("written-file-rejected", "container.Parser rejects the animation encoder's output: "+pl, replay)
 	} else if binary.LittleEndian.Uint32(data[4:8]) != uint32(len(data)-8) || len(data)%2 != 0 {
 		c.Violate("written-file-rejected", fmt.Sprintf("RIFF size field %d does not describe the %d bytes written (or the file length is odd)", binary.LittleEndian.Uint32(data[4:8]), len(data)), replay)
@@ -425,19 +486,20 @@ func c15Sources(rng *Rand, w, h int) []c15Source {
 
 func main() {
 	Main("c15", func(c *Ctx) {
-		c.D.Rule = "blobs {nil, empty, 1 byte, odd, even, chunk-header look-alikes, \"RIFF\", 64 KB, 64 KB+1} for ICC x EXIF x XMP (all 8 presence subsets with every blob in each position, plus random triples) x stills {lossy, lossless, lossy+alpha raw/compressed} and animations {1, 3 frames x lossless/lossy}; non-trivial = distinct (kind, blob triple, parities of all chunk payloads)"
+		c.D.Rule = "blobs {nil, empty, 1 byte, odd, even, chunk-header look-alikes, \"RIFF\", 64 KB, 64 KB+1} and shaped blobs {EXIF with/without the APP1 identifier, II/MM TIFF headers; XMP xpacket / xmpmeta / BOM+whitespace / trailing NULs / APP1 namespace id; ICC headers with acsp and size field equal, larger, smaller than the length; blobs starting with VP8 /ALPH/EXIF/ANMF chunk headers; all-zero and all-0xFF blobs} for ICC x EXIF x XMP (all 8 presence subsets with every blob in each position, plus random triples) x stills {lossy, lossless, lossy+alpha raw/compressed} and animations {1, 3 frames x lossless/lossy}; non-trivial = distinct (kind, blob triple, parities of all chunk payloads)"
 		c.D.Notes = append(c.D.Notes,
 			"correspondence: bytes written by webp.Encode vs WriterModel.write_riff / encode_lossless_container applied to the encoder's real bitstream (opaque blob); the model line also carries ParserSpec.riff_wf, spec_get_chunk for the three ids and ParserModel.parse of the written bytes, compared with mux.Demuxer.GetChunk and container.NewParser on the Go bytes; AnimEncoder.Close's selection vs WriterModel.anim_close on the two real candidate files",
 			"the 100 MB metadata cap: Encode with a blob of exactly 100 MB and of 100 MB + 1 byte is evaluated directly (accepted => read back byte for byte and accepted by GetFeatures/Decode; refused => no output); these files are not run through the extracted model")
 		rng := c.Rng.Fork()
 		blobs := c15Blobs(rng)
 		small := blobs[:8]
+		shaped := c15Shaped()
 		kinds := []stillKind{{"lossy", false, 0}, {"lossless", true, 0}, {"lossy-alpha-raw", false, 2}, {"lossy-alpha-vp8l", false, 1}, {"lossless-alpha", true, 2}}
 		dims := [][2]int{{8, 8}, {13, 9}}
 		if c.Thorough() {
 			dims = append(dims, [2]int{40, 30}, [2]int{1, 1})
 		}
-		for _, d := range dims {
+		for di, d := range dims {
 			for ki, k := range kinds {
 				img := testImage(rng, d[0], d[1], k.Alpha, 30)
 				o := webp.DefaultOptions()
@@ -457,6 +519,15 @@ func main() {
 					c15Still(c, k, img, o, b, nilb, nilb, &ref)
 					c15Still(c, k, img, o, nilb, b, nilb, &ref)
 					c15Still(c, k, img, o, nilb, nilb, b, &ref)
+				}
+				// realistic / structure-like / degenerate shapes, each in each position (every kind on the first size)
+				if di == 0 || c.Thorough() {
+					for _, b := range shaped {
+						c15Still(c, k, img, o, b, nilb, nilb, &ref)
+						c15Still(c, k, img, o, nilb, b, nilb, &ref)
+						c15Still(c, k, img, o, nilb, nilb, b, &ref)
+					}
+					c15Still(c, k, img, o, shaped[11], shaped[0], shaped[6], &ref)
 				}
 				for mask := 1; mask < 8; mask++ {
 					pick := func(bit int, alt int) blob {
@@ -527,6 +598,12 @@ func main() {
 						c15Anim(c, rng, lossless, nf, d[0]*2, d[1]*2, nilb, b, nilb, refs)
 						c15Anim(c, rng, lossless, nf, d[0]*2, d[1]*2, nilb, nilb, b, refs)
 					}
+					for _, b := range shaped {
+						c15Anim(c, rng, lossless, nf, d[0]*2, d[1]*2, b, nilb, nilb, refs)
+						c15Anim(c, rng, lossless, nf, d[0]*2, d[1]*2, nilb, b, nilb, refs)
+						c15Anim(c, rng, lossless, nf, d[0]*2, d[1]*2, nilb, nilb, b, refs)
+					}
+					c15Anim(c, rng, lossless, nf, d[0]*2, d[1]*2, shaped[11], shaped[0], shaped[6], refs)
 					for i := 0; i < 12; i++ {
 						r := rng.Fork()
 						c15Anim(c, rng, lossless, nf, d[0]*2, d[1]*2, small[r.Intn(len(small))], small[r.Intn(len(small))], small[r.Intn(len(small))], refs)
